@@ -48,6 +48,8 @@ def predicate(name, r):
                 if e.get("k") == "t.edit" and (e.get("i", 0) != e.get("j", 0)):
                     return True
         return False
+    if name == "dbfault_dupwin":
+        return any(st.get("db") and st.get("flag") == "dupwin" for st in trace)
     if name == "detach_or_deactivate":
         return "detach" in ops or "deactivate" in ops
     if name == "array_move_or_set":
@@ -77,7 +79,20 @@ def counterfactual_config(kind, cfg):
         cfg["client_disable_gc"] = True
         cfg["server_disable_gc"] = True
         return cfg
+    if kind == "no_dbfault":
+        return cfg
     raise ValueError("unknown counterfactual " + kind)
+
+
+def counterfactual_trace(kind, trace):
+    if kind == "no_dbfault":
+        out = []
+        for st in trace:
+            st = dict(st)
+            st.pop("db", None)
+            out.append(st)
+        return out
+    return trace
 
 
 def match(findings, r, replayer=None):
@@ -101,7 +116,8 @@ def match(findings, r, replayer=None):
             if replayer is None:
                 ok = False
             else:
-                cv = replayer(counterfactual_config(key["counterfactual"], r.get("config") or {}), r.get("trace") or [], r)
+                cv = replayer(counterfactual_config(key["counterfactual"], r.get("config") or {}),
+                              counterfactual_trace(key["counterfactual"], r.get("trace") or []), r)
                 if cv is not None:
                     ok = False  # still fails with the mechanism removed: something else is wrong
         if ok:
